@@ -63,6 +63,17 @@ Proof.
   - destruct (e_ret (ent s c)); try discriminate. destruct (e_comp (ent s c)); try discriminate. inv_some. exact P.
   - inv_some. exact P.
   - inv_some. exact P.
+  - assert (Hs : loops s' = updl (loops s) h0 (LIdle (epoch s))) by (destruct (loops s h0); try discriminate; inv_some; reflexivity).
+    rewrite Hs. destruct (Nat.eq_dec h h0) as [Eh|N].
+    + subst. rewrite updl_same. intros ep' Hep. simpl in Hep. now inversion Hep.
+    + rewrite updl_other; auto.
+  - destruct (loops s h0) eqn:EL; try discriminate. destruct (closed s); try discriminate. inv_some. simpl in *.
+    destruct (Nat.eq_dec h h0) as [Eh|N].
+    + subst. rewrite updl_same. intros ep' Hep. simpl in Hep. now inversion Hep.
+    + rewrite updl_other; auto.
+  - destruct (e_st (ent s c)); try discriminate.
+    destruct (closed s && negb (loaded_on (loops s (e_host (ent s c))) i)); try discriminate. inv_some. exact P.
+  - destruct (e_st (ent s c)); try discriminate. destruct (closed s); try discriminate. inv_some. exact P.
 Qed.
 
 Lemma run_ep_is : forall ls s s' h E, run s ls = Some s' -> epoch s = E -> epoch s' = E ->
